@@ -16,6 +16,19 @@ type stickyEventData struct {
 	DurationMillis int64 `json:"duration_ms"`
 }
 
+// UnmarshalJSON reads the sticky duration if there is a well-formed one. The
+// member is redactable material: a malformed one must not make the event
+// undecodable, it just means the event is not sticky.
+func (s *stickyEventData) UnmarshalJSON(data []byte) error {
+	var fields struct {
+		DurationMillis int64 `json:"duration_ms"`
+	}
+	if err := unmarshalExact(data, &fields); err == nil {
+		s.DurationMillis = fields.DurationMillis
+	}
+	return nil
+}
+
 type eventV1 struct {
 	redacted    bool
 	eventJSON   []byte
@@ -121,7 +134,7 @@ func (e *eventV1) RoomID() spec.RoomID {
 }
 
 func (e *eventV1) Redacts() string {
-	return e.eventFields.Redacts
+	return string(e.eventFields.Redacts)
 }
 
 func (e *eventV1) Redacted() bool {
